@@ -2331,7 +2331,7 @@ fn exhaustive(d: usize, full: bool) -> Vec<SExp> {
 /// declarator
 const TARG_POSITIONS: usize = 9;
 /// bound on the bracket nesting of the printed text of a random `template-args` tree (see `printed_nesting`)
-const MAX_TARG_NESTING: usize = 7;
+const MAX_TARG_NESTING: usize = 6;
 fn targ_position(e: &SExp, k: usize) -> SExp {
     let ea = SExp::list("E", vec![e.clone()]);
     let foo = |args: Vec<SExp>| {
@@ -2902,7 +2902,7 @@ pub fn run(args: &Args, out: &mut Out) {
             run_request(&line, out, &mut st);
         }
     }
-    for i in 0..(if thorough { 40000 } else { 3000 }) {
+    for i in 0..(if thorough { 30000 } else { 3000 }) {
         let d = 3 + (i % 4) as usize;
         let mut t;
         let mut tries = 0;
